@@ -54,11 +54,16 @@ structure Cfg where
   indent : PStr
 deriving DecidableEq, Repr
 
-/-- `Formatter._default` (formatter.py:66-77) for `kwarg = "cdata_containing_tags"` -/
-def default_ (language : Lang) (value : Option (List PStr)) : List PStr :=
+/-- `Formatter._default` (formatter.py:66-77) for `kwarg = "cdata_containing_tags"`. `htmlDefaults` is
+    `self.HTML_DEFAULTS[kwarg]`: the table of the class **in use** — a user subclass may declare its own `HTML_DEFAULTS`. -/
+def defaultCls (htmlDefaults : List PStr) (language : Lang) (value : Option (List PStr)) : List PStr :=
   match value with
   | some v => v
-  | none => if language = .xml then [] else BS.Gen.fmtHtmlDefaultCdata
+  | none => if language = .xml then [] else htmlDefaults
+
+/-- the three stock classes share `Formatter.HTML_DEFAULTS` -/
+def default_ (language : Lang) (value : Option (List PStr)) : List PStr :=
+  defaultCls BS.Gen.fmtHtmlDefaultCdata language value
 
 /-- formatter.py:125-136: `None → 0`; an int: negative `→ 0`, then `" " * indent`; a str: itself; anything else: `" "` -/
 def normIndent : IndentArg → PStr
@@ -67,15 +72,19 @@ def normIndent : IndentArg → PStr
   | .str s => s
   | .other => [32]
 
-/-- `Formatter.__init__` (formatter.py:79-136); `language = none` is `None` (or `""`) -/
-def mkFormatter (language : Option Lang) (a : Args) : Cfg :=
+/-- `Formatter.__init__` (formatter.py:79-136) run on an instance of a class whose `HTML_DEFAULTS['cdata_containing_tags']`
+    is `htmlDefaults`; `language = none` is `None` (or `""`) -/
+def mkFormatterCls (htmlDefaults : List PStr) (language : Option Lang) (a : Args) : Cfg :=
   let lang := language.getD .html
   { language := lang
     entity_substitution := a.entity_substitution
     void_element_close_prefix := a.void_element_close_prefix
-    cdata_containing_tags := default_ lang a.cdata_containing_tags
+    cdata_containing_tags := defaultCls htmlDefaults lang a.cdata_containing_tags
     empty_attributes_are_booleans := a.empty_attributes_are_booleans
     indent := normIndent a.indent }
+
+/-- `Formatter(language, …)` itself -/
+def mkFormatter (language : Option Lang) (a : Args) : Cfg := mkFormatterCls BS.Gen.fmtHtmlDefaultCdata language a
 
 /-- `HTMLFormatter.__init__` with the repair: every option is passed on, `indent` included -/
 def mkHTMLFormatter (a : Args) : Cfg := mkFormatter (some .html) a
